@@ -8,7 +8,7 @@ RULE = ("single-fault corruptions of generated valid files (per sig field: empty
         "sig/label/sys), loaded alternately into a fresh and into ONE long-lived Database through one path, all sequences of <= 3 line kinds from a 19-kind alphabet (thorough: <= 4), unreadable paths; observable = "
         "exception class and .line_number, or the loaded database; non-trivial = the model rejects the file")
 ASSUMPTIONS = ["'comment line' = ';' in column 0 (the code's own rule); int() leniency ('+5', ' 5', '6_4') is not an error"]
-GEN_TIE = ["sig", "file"]   # TCPSignature.parse / MTUSignature.parse and their field parsers are also TRANSLATED (translate/sig2coq.py) on every run and proved equal to the model (Gen/GenSigP.v); so are the line loop of _parse_file, _parse_section, labels and RecordsDatabase.create/add (translate/file2coq.py, Gen/GenFileP.v)
+GEN_TIE = ["sig", "file", "httpx"]   # TCPSignature.parse / MTUSignature.parse and their field parsers are also TRANSLATED (translate/sig2coq.py) on every run and proved equal to the model (Gen/GenSigP.v); so are the line loop of _parse_file, _parse_section, labels and RecordsDatabase.create/add (translate/file2coq.py, Gen/GenFileP.v)
 EXHAUSTIVE = {"all sequences of <= 3 line kinds over 19 kinds": True,
               "every value of the per-field boundary catalogue (dbgen.*_FAULTS) in an otherwise valid one-record file": True}
 OK_EXC = {"ParsingError", "DatabaseError"}
@@ -53,6 +53,9 @@ def generate(R, tier):
     yield {"stream": "unreadable", "path": "directory"}
     yield {"stream": "unreadable", "path": "invalid-utf8-first-line"}
     yield {"stream": "unreadable", "path": "invalid-utf8-late"}
+    # path strings that cannot be opened at all
+    for q in ("nul-in-path", "unknown-user-home", "empty", "too-long", "not-a-directory-component"):
+        yield {"stream": "unreadable", "path": q}
     for _ in range(n):
         base = D.valid_file(R, small=R.random() < 0.7)
         lines, what = D.corrupt(R, base)
@@ -98,7 +101,11 @@ def impl_init():
                 os.unlink(p)
             return {"ok": "loaded?!"}
         if "path" in c:
-            p = "/nonexistent/dir/p0f.fp" if c["path"] == "missing" else os.path.dirname(os.path.abspath(__file__))
+            p = {"missing": "/nonexistent/dir/p0f.fp", "nul-in-path": "p0f\0.fp", "unknown-user-home": "~no-such-user-xyz/p0f.fp", "empty": "",
+                 "too-long": "x" * 5000, "not-a-directory-component": os.path.abspath(__file__) + "/p0f.fp"}.get(c["path"], os.path.dirname(os.path.abspath(__file__)))
+            if kept[1] % 2:
+                import pathlib
+                p = pathlib.Path(p) if c["path"] != "empty" else p
             Database().load(p)
             return {"ok": "loaded?!"}
         # two of three loads go into ONE long-lived Database object (through the same path, usually within the same second):
